@@ -384,4 +384,36 @@ def run(tier):
                              dec.relfile, ln, var, esc[-1][1], [p_[1] for p_ in esc[-7:-1]], var, var), file=dec.relfile, line=ln)
         res.instance("C16.R6", "matrixSslDecodeTls12AndBelow:%s epoch comparison result gates the replay-window test" % ln, esc is None, finding=f_)
     res.floor("C16.R6", 1)
+
+    # ---------------------------------------------------------------- R7: every accepted record is marked
+    res.rule("C16.R7", "replay window: every path of dtlsChkReplayWindow that accepts a record (return 1) sets that record's bit in the bitmap")
+    win = prog.fn("dtlsChkReplayWindow")
+
+    def marks(x):
+        for m in walk(x):
+            if m.get("k") == "bin" and wfield(m["l"]) == "dtlsBitmap":
+                r_ = strip(m["r"])
+                while r_ is not None and r_.get("k") == "cast":
+                    r_ = strip(r_["e"])
+                if m["op"] == "|=":
+                    return True
+                if m["op"] == "=" and r_ is not None and r_.get("k") == "int" and r_["v"] & 1:
+                    return True
+        return False
+
+    def accepts(x):
+        if x.get("k") != "ret" or x.get("e") is None:
+            return False
+        e_ = strip(x["e"])
+        return e_ is not None and e_.get("k") == "int" and e_["v"] == 1
+    esc7 = cu.escapes(win, (win.entry, None), marks, target_expr=accepts)
+    f7 = None
+    if esc7 is not None:
+        f7 = Finding(PROP, "C16.R7", win.name, "record accepted without being marked in the window",
+                     "%s:%s dtlsChkReplayWindow(): `return 1` is reached (via lines %s) without setting the record's bit in ssl->dtlsBitmap "
+                     "(RFC 4303 / RFC 2401 App. C: bitmap = 1 after a jump beyond the window): when bit 0 is clear - a fresh window, the first "
+                     "record of a newer epoch - the same record is accepted again on replay and delivered twice" % (
+                         win.relfile, esc7[-1][1], [p_[1] for p_ in esc7[-6:-1]]), file=win.relfile, line=esc7[-1][1])
+    res.instance("C16.R7", "dtlsChkReplayWindow: every `return 1` path marks the accepted record", esc7 is None, finding=f7)
+    res.floor("C16.R7", 1)
     return res.finish()
